@@ -293,15 +293,12 @@ def helper_methods(program):
 def stage_events(program, qual):
     fn = program.fn('decoder', f"{CLS}.{qual}")
     ex = sym.SymExec(fn, inline_methods=helper_methods(program), consts=None)
+    ex.drop_asserted = True
     try:
         ex.run()
     except sym.Unsupported as u:
         raise AnalysisError(f"{qual}: {u}")
-    # an assert states what its author takes to hold: it is not a branch of the decision.  The walker records it as a path condition; here those
-    # conditions are taken out of the guards again (the assert events themselves stay)
-    asserted = {e[2] for e in ex.events if e[0] == 'assert'}
-    if asserted:
-        ex.events = [((e[0], tuple(g for g in e[1] if g not in asserted)) + tuple(e[2:])) if e[0] != 'assert' else e for e in ex.events]
+    # (assert conditions are not part of the guards: SymExec.drop_asserted)
     return fn, ex
 
 class Decoded:
